@@ -208,6 +208,33 @@ def _dict_fields(d):
     return [{"name": k, "value": str(v)} for k, v in d.items()]
 
 
+def after_rpc_mismatch(tname, parse_fn=None):
+    """History on one FcpV2 object, all of it repository code: reflection(), then the in-place extension fcp_cpp's generator
+    makes (generate_rpc appends the rpc envelope structs, bindings and id enums to the tree), then reflection() again.
+    The second record must list every struct, enum and binding the schema object now holds (C12: 'lists every struct ...
+    of the schema').  Returns a description of the mismatch or ''.  Concrete (no symbolic leaves): the subject is state
+    kept across calls, not data."""
+    fcp = (parse_fn or parse)(TEMPLATES[tname])
+    if not fcp.services:
+        return ""
+    n0 = len(fcp.structs)
+    fcp.reflection()
+    try:
+        from fcp_cpp.rpc import generate_rpc
+        generate_rpc(fcp)
+    except Exception:
+        return ""            # what the C++ generator accepts is not C12's business
+    if len(fcp.structs) == n0:
+        return ""
+    rec = fcp.reflection()
+    for key, nodes in (("structs", fcp.structs), ("enums", fcp.enums), ("impls", fcp.impls)):
+        have, want = [x["name"] for x in rec[key]], [str(n.name) for n in nodes]
+        if have != want:
+            return (f"after reflection() + fcp_cpp.rpc.generate_rpc(fcp) on the same object, reflection() lists {key} {have} "
+                    f"but the schema holds {want}")
+    return ""
+
+
 def declared_of(fcp):
     """The extension fields as declared in the source: taken right after parsing, before anything else touches the tree."""
     return [(dict(i.fields), [dict(g.fields) for g in i.signals]) for i in fcp.impls]
@@ -305,6 +332,20 @@ def c12_case(args):
                 res["violations"].append({"replay": path, "ob": ob0, "what": f"{bad} :: {text[-200:]}"})
             else:
                 res["inconclusive"].append(f"{ob0}: {bad}: replay did not reproduce ({text[-120:]})")
+            return res
+        res["discharged"] += 1
+    if fcp.services:
+        ob1 = f"{tname}|reflection-follows-the-tree-after-generate_rpc"
+        res["obligations"].append(ob1)
+        bad = after_rpc_mismatch(tname)
+        if bad:
+            from ..common import write_replay, run_replay
+            path = write_replay("C12", {"kind": "reflection_after_rpc", "template": tname, "property": "C12", "what": bad})
+            okr, text = run_replay(path)
+            if okr:
+                res["violations"].append({"replay": path, "ob": ob1, "what": f"{bad[:400]} :: {text[-200:]}"})
+            else:
+                res["inconclusive"].append(f"{ob1}: {bad[:200]}: replay did not reproduce ({text[-120:]})")
             return res
         res["discharged"] += 1
     same_object_history(fcp)
